@@ -380,13 +380,23 @@ def run_cases(ctx, res, cfgs, scripts_for, build_tag_prefix="pm", per_case=False
             fails = [(no, x) for (no, x) in vv if x.startswith("FAIL")]
             res.count("verdict-lines", len(v))
             if fails:
-                no, what = fails[0]
+                # a mismatch with the algorithm model alone (every property check passes) is reported as such
+                model_only = all(x.startswith("FAIL MODEL") for (_, x) in fails)
+                real = [(no, x) for (no, x) in fails if not x.startswith("FAIL MODEL")]
+                no, what = (real or fails)[0]
                 what = what[5:]
                 cat = classify(what)
                 sit = situation(c, lines[:no + 1])
                 if sit:
                     cat = sit
                 # the shortest failing prefix of the history is the replay (commands are numbered from the CASE line)
+                if model_only and not sit:
+                    res.violation("%s:algorithm-model" % c.kind, "options %s, case %s: the exposed R is a valid reduced decomposition with the "
+                                  "canonical pairing but no longer the one the algorithm model (ReduceExec.reduce, standard left-to-right "
+                                  "reduction) computes: the correspondence 'R of the implementation = R of the model' no longer checks" % (c.tag, name),
+                                  {"options": c.d, "kind": c.kind, "script": lines[:no + 1]}, expected="R = reduce D",
+                                  observed=[x for (_, x) in fails[:3]], no_input=True)
+                    continue
                 res.violation("%s:%s" % (c.kind, cat), "options %s, case %s: %s" % (c.tag, name, what),
                               {"options": c.d, "kind": c.kind, "script": lines[:no + 1]}, expected="all checks OK",
                               observed=[x for (_, x) in fails[:3]])
